@@ -120,3 +120,20 @@ Theorem C09_udp_scrape_end_to_end_step : forall mac (t : tcfg) (u : ucfg) sp clo
                           {| dt_seeders := c; dt_completed := 0; dt_leechers := i |}) ihs).
 Proof. exact udp_scrape_end_to_end_step. Qed.
 Print Assumptions C09_udp_scrape_end_to_end_step.
+
+(* the hypotheses of the end-to-end theorems are satisfiable (non-vacuity): a concrete 98-byte BEP 15 announce
+   from 10.0.0.9 with the connection ID this tracker issues for that address, accepted in the state reached by
+   one earlier seeder announce; the response decodes to the request's transaction id, action 1, the configured
+   interval, 0 leechers / 1 seeder and that seeder's endpoint; afterwards the announcer is listed as a leecher *)
+Theorem C09_udp_end_to_end_example :
+  let ops := [SClock (ex_clock - 10 ^ 9); SAnnounce ex_seeder] in
+  Forall sop_sane ops /\ wf_bytes ex_packet = true /\ length ex_packet = 98%nat /\
+  (exists txid r q, UdpParse.handle_udp ex_mac (uc_key ex_u) (uc_skew ex_u) ex_clock (uc_opts ex_u) ex_ip ex_packet =
+               UdpParse.UAnnounce txid false r q /\ r_left r = 1000 /\ r_event r = EvStarted /\ r_numwant r = 10) /\
+  exists sp' d, udp_step spec_if ex_mac ex_t ex_u (run_spec ops) ex_clock ex_ip ex_packet = Some (sp', [d]) /\
+    bep15_decode_announce false d =
+      Some {| da_action := 1; da_txid := [222; 173; 190; 239]; da_interval := 1800;
+              da_leechers := 0; da_seeders := 1; da_peers := [([10; 0; 0; 1], 6881)] |} /\
+    map fst (map_to_list (leechers (swarm_of sp' ex_ih false))) = [repeat 76 20 ++ be16 51413 ++ ex_ip].
+Proof. exact udp_end_to_end_example. Qed.
+Print Assumptions C09_udp_end_to_end_example.
